@@ -199,6 +199,14 @@ func c06Is(p *Prog, rp *Report, archT *types.Named, thorough bool) {
 		if !ok {
 			return false, "non-boolean result"
 		}
+		// the question must not change the operands
+		for k, id := range []int{ia, ib} {
+			sv, _ := out[0].Heap[id].V.(*StructV)
+			t := []triple{a, b}[k]
+			if sv == nil || sv.F[fieldIndex(structOf(archT), "ABI")] != t[0] || sv.F[fieldIndex(structOf(archT), "OS")] != t[1] || sv.F[fieldIndex(structOf(archT), "CPU")] != t[2] {
+				return false, fmt.Sprintf("undecided-purity: Is modifies its operand %v", t)
+			}
+		}
 		return rb, ""
 	}
 	rows, bad := 0, 0
@@ -215,6 +223,10 @@ func c06Is(p *Prog, rp *Report, archT *types.Named, thorough bool) {
 					got, err = eval(pt, c)
 				}
 				rows++
+				if strings.HasPrefix(err, "undecided-purity: ") {
+					r.bad("dependency.Arch.Is", pos, fmt.Sprintf("%v vs %v: %s: a later question about the same value gets a different answer", c, pt, strings.TrimPrefix(err, "undecided-purity: ")), nil)
+					return
+				}
 				if err != "" {
 					r.undecided("dependency.Arch.Is", pos, fmt.Sprintf("%v vs %v: %s", c, pt, err))
 					return
